@@ -136,6 +136,10 @@ std::string Normalizer::ProcessTupleDeclaration(SyntaxTree::Node& root) {
       }
     }
   }
+  // Note: different tuples can produce the same concatenation, e.g. (a,bc) and (ab,c)
+  while (!usedTupleNames.insert(newName).second) {
+    newName += '@';
+  }
   root.RemoveAll();
   root.token.data = TokenData{ newName };
   root.token.id = TokenID::ID_LOCAL;
